@@ -1,5 +1,5 @@
 """Unit `mutexsink` (C10): MutexSink (metrique-aggregation/src/sink/mutex.rs) - every entry handed to the mutex-shared sink is merged
-into the inner sink (merge blocks on the lock; it never drops an entry), and close takes what the inner sink holds.
+into the inner sink (merge blocks on the lock; it never drops an entry), and close emits what the shared aggregate holds.
 std::sync::Mutex is a stand-in: `lock()` returns a guard that dereferences to the protected value; `try_lock()` may fail."""
 
 NAME = "mutexsink"
@@ -22,20 +22,24 @@ pub trait CloseValue: Sized { type Closed; spec fn closed(self) -> Self::Closed;
 #[verifier::external_body] pub struct TryLockError { _p: u8 }
 impl core::fmt::Debug for PoisonError { #[verifier::external_body] fn fmt(&self, f: &mut core::fmt::Formatter<'_>) -> core::fmt::Result { unimplemented!() } }
 impl<T> Mutex<T> {
+    // the protected value as the locking thread finds it (one thread's view of shared state)
+    pub uninterp spec fn held(&self) -> T;
     #[verifier::external_body] pub fn new(t: T) -> Mutex<T> { unimplemented!() }
     // blocks until the lock is free; an Err means a previous holder panicked (poisoning)
     #[verifier::external_body] pub fn lock(&self) -> (r: Result<MutexGuard<'_, T>, PoisonError>)
-        ensures r is Ok   // assumed: no earlier holder panicked (a poisoned lock makes `unwrap` panic: loud, not a silent drop)
+        ensures r is Ok,   // assumed: no earlier holder panicked (a poisoned lock makes `unwrap` panic: loud, not a silent drop)
+                r->Ok_0@ == self.held()
     { unimplemented!() }
     // does not block: fails when another thread holds the lock
-    #[verifier::external_body] pub fn try_lock(&self) -> (r: Result<MutexGuard<'_, T>, TryLockError>) { unimplemented!() }
+    #[verifier::external_body] pub fn try_lock(&self) -> (r: Result<MutexGuard<'_, T>, TryLockError>) ensures r is Ok ==> r->Ok_0@ == self.held() { unimplemented!() }
 }
+impl<'a, T> MutexGuard<'a, T> { pub uninterp spec fn view(&self) -> T; }
 impl<'a, T> core::ops::Deref for MutexGuard<'a, T> {
     type Target = T;
-    #[verifier::external_body] fn deref(&self) -> &T { unimplemented!() }
+    #[verifier::external_body] fn deref(&self) -> (r: &T) ensures *r == self@ { unimplemented!() }
 }
 impl<'a, T> core::ops::DerefMut for MutexGuard<'a, T> {
-    #[verifier::external_body] fn deref_mut(&mut self) -> &mut T { unimplemented!() }
+    #[verifier::external_body] fn deref_mut(&mut self) -> (r: &mut T) ensures *r == old(self)@, final(self)@ == *final(r) { unimplemented!() }
 }
 '''
 
@@ -45,6 +49,13 @@ ITEMS = [
          ensures="""
             // C10: an entry merged through the shared sink reaches the inner aggregation - it is never dropped
             was_merged(ghost_id(entry)),                                // OBL mutex_sink_merges_every_entry
+         """),
+    dict(kind="fn", file=M, impl=r"^impl < Inner > CloseValue for MutexSink < Inner > where", name="close", ret="r", label="MutexSink::close",
+         impl_extra="    type Closed = Inner::Closed;\n    open spec fn closed(self) -> Inner::Closed { self.inner.held().closed() }\n",
+         ensures="""
+            // C10: closing the shared sink emits what the shared aggregate holds at that moment (it waits for the lock; it never emits
+            // a fresh, empty aggregate instead)
+            r == self.inner.held().closed(),                                // OBL mutex_sink_close_emits_the_shared_aggregate
          """),
 ]
 POSTLUDE = ""
